@@ -166,7 +166,7 @@ def main(tier, seed):
             '<- {0,1,2,v+-1,ub-1,ub,ub+1,INT_MAX,INT_MIN,-1}, doubles <- {0,1e300,NaN,inf,denormal,-1}, shorts, string/name '
             'length prefixes); every expression/segment/bound letter <- 16 letters incl. NUL and 0x80; names; truncation at '
             'every byte offset; every segment moved to every other position / deleted / duplicated; every line deleted / '
-            'duplicated; thorough adds all pairs of token substitutions, substitution+truncation at every offset and '
+            'duplicated; every pair of header counts <- 2^30 together; thorough adds all pairs of token substitutions, substitution+truncation at every offset and '
             'segment-move+substitution over a reduced alphabet. Lexer level: all strings of length <= 4 over '
             '{0,9,+,-,.,e,space,tab,LF,CR,NUL,x,0x80,:} in 11 token contexts, followed by a valid rest and by EOF. '
             'Nesting ladders (6 shapes) of depth 10..1e4 (1e5, 1e6 thorough). Each input: ReadNLString and ReadNLFile '
